@@ -53,7 +53,7 @@ class Shape:
         L.append("#define SH_NVALS %d" % nvals)
         L.append("#define SH_NEED %d" % self.need())
         L.append("#define SH_MAXB %d" % maxb)
-        build, checks, va, snan, decls = [], [], [], [], []
+        build, checks, va, snan, decls, avb = [], [], [], [], [], []
         p = 0; li = 0; bi = 0; vi = 0
         for ti, t in enumerate(self.tags):
             if t in "[]":
@@ -63,7 +63,9 @@ class Shape:
                    'A01(!rtosc_itr_end(it), "C01 iterator yields at least narguments values");',
                    'rtosc_arg_val_t av = rtosc_itr_next(&it); cnt++;',
                    'A01(av.type == \'%s\', "C01 iterator type is the original tag");' % t]
+            avb.append("av[%d].type = '%s';" % (vi, t))
             if t in PAYLOAD:
+                avb.append("av[%d].val = args[%d];" % (vi, p))
                 if t in FOUR and t != "m":
                     build.append("args[%d].i = (int32_t)(uint32_t)IN.bits[%d]; v[%d].bits = (uint32_t)IN.bits[%d];" % (p, p, p, p))
                     chk.append('A01((uint32_t)a.i == (uint32_t)IN.bits[%d] && (uint32_t)av.val.i == (uint32_t)IN.bits[%d], "C01 4-byte value bit-identical");' % (p, p))
@@ -104,6 +106,7 @@ class Shape:
                     va.append("%d, %s" % (ln, "(unsigned char*)0" if null else "IN.blob[%d]" % p))
                 p += 1
             else:
+                if t in "TF": avb.append("av[%d].val.T = %d;" % (vi, 1 if t == "T" else 0))
                 if t == "T": chk.append('A01(a.T == 1 && av.val.T == 1, "C01 T reads back true");')
                 if t == "F": chk.append('A01(a.T == 0 && av.val.T == 0, "C01 F reads back false");')
             checks.append("{ " + " ".join(chk) + " }")
@@ -112,6 +115,7 @@ class Shape:
         L.append("#define SH_BUILD " + " ".join(build))
         L.append("#define SH_CHECKS " + " ".join(checks))
         L.append("#define SH_SNAN_CHECK " + " ".join(snan))
+        L.append("#define SH_AVBUILD " + " ".join(avb))
         L.append("#define SH_VARARGS(b, c) rtosc_message((b), (c), SH_ADDR, SH_TAGS%s)" % ("".join(", " + x for x in va)))
         return "\n".join(L) + "\n"
 
